@@ -2725,6 +2725,120 @@ def extract_grammar():
     write_if_changed("Grammar.lean", "\n".join(L))
 
 EXTRACTORS += [extract_grammar]
+# ---------------------------------------------------------------- C04: match-compiler dispatch vs the types the typer gives refutable patterns
+def c04_norm(t):
+    return re.sub(r"\s+", " ", t).strip()
+
+def c04_depth_of(body, needle):
+    """brace depth (0 = directly in `body`) of every occurrence of `needle` in `body`"""
+    out, depth, i = [], 0, 0
+    while i < len(body):
+        if body.startswith(needle, i):
+            out.append(depth)
+        if body[i] == "{":
+            depth += 1
+        elif body[i] == "}":
+            depth -= 1
+        i += 1
+    return out
+
+def c04_match_dispatch():
+    """C04: `compile_match.rs::compile_rows` dispatches on the type of the first refutable pattern column; some arms are
+    `panic!`/`unreachable!`. Whether those are reachable is decided by the typer: the table of types it equates a literal
+    pattern's scrutinee with (check.rs `check_pat_*`, unconditionally) must stay inside the arms that have a case."""
+    tast = src("crates/compiler/src/tast.rs")
+    variants = re.findall(r"^\s{4}(T\w+)\b", block_after(tast, r"pub enum Ty \{", "tast.rs enum Ty"), flags=re.M)
+    if len(variants) < 20 or "TFloat64" not in variants or "TVar" not in variants:
+        raise Exception(f"tast.rs: enum Ty variants not recognised: {variants}")
+    cm = src("crates/compiler/src/compile_match.rs")
+    rows = block_after(cm, r"fn compile_rows\(", "compile_match.rs compile_rows")
+    # block_after took the first `{` after the header: make sure it is the function body
+    if "let bvar = branch_variable(&rows);" not in rows or "move_variable_patterns(row);" not in rows:
+        raise Exception("compile_match.rs: compile_rows is not `move_variable_patterns; …; let bvar = branch_variable(&rows); match &bvar.ty {…}`")
+    disp = block_after(rows, r"match &bvar\.ty \{", "compile_rows: match &bvar.ty")
+    mvp = block_after(cm, r"fn move_variable_patterns\(", "move_variable_patterns")
+    if not re.search(r"Pat::PVar \{", mvp) or not re.search(r"Pat::PWild \{ ty: _ \} => false,", mvp) or not re.search(r"_ => true,", mvp):
+        raise Exception("compile_match.rs: move_variable_patterns no longer removes exactly the PVar and PWild columns")
+    bv = c04_norm(block_after(cm, r"fn branch_variable\(", "branch_variable"))
+    if "var_ty.insert(col.var.clone(), col.pat.get_ty());" not in bv:
+        raise Exception("compile_match.rs: branch_variable no longer takes the branch type from the column's pattern")
+    # top-level arms of the dispatch: they start at the indentation of the first one
+    starts = [m for m in re.finditer(r"^ {8}((?:Ty::\w+(?: \{[^}]*\}|\([^)]*\))?(?:\s*\|\s*)?)+) =>", disp, flags=re.M)]
+    if len(starts) < 15:
+        raise Exception(f"compile_rows: expected the arms of `match &bvar.ty`, found {len(starts)}")
+    case, nocase = [], []
+    for k, m in enumerate(starts):
+        body = disp[m.end():starts[k + 1].start() if k + 1 < len(starts) else len(disp)]
+        heads = re.findall(r"Ty::(\w+)", m.group(1))
+        nb = c04_norm(body)
+        fn = re.match(r"\{?\s*(?:let ident = TastIdent::new\(name\); )?(compile_\w+_case)\(", nb)
+        pm = re.match(r"\{?\s*(panic|unreachable)!\((?:\"([^\"]*)\")?", nb)
+        for h in heads:
+            if fn:
+                case.append((h, fn.group(1)))
+            elif pm:
+                nocase.append((h, pm.group(1) + (": " + pm.group(2) if pm.group(2) else "")))
+            elif h == "TApp":
+                # `match base.as_ref() { Ty::TEnum => compile_enum_case, Ty::TStruct => compile_struct_case, _ => panic! }`
+                inner = re.findall(r"Ty::(TEnum|TStruct) \{ name \} => \{.*?(compile_\w+_case)\(", nb)
+                if [x[0] for x in inner] != ["TEnum", "TStruct"] or not re.search(r"_ => panic!\(", nb):
+                    raise Exception("compile_rows: the TApp arm is not `match base { TEnum => compile_enum_case, TStruct => compile_struct_case, _ => panic! }`")
+                case.append((h, "/".join(x[1] for x in inner)))
+            else:
+                raise Exception(f"compile_rows: arm {h} is neither a compile_*_case call nor panic!/unreachable!: {nb[:80]}")
+    seen = [h for h, _ in case + nocase]
+    if sorted(seen) != sorted(variants):
+        raise Exception(f"compile_rows: the arms {sorted(seen)} are not exactly the variants of tast::Ty {sorted(variants)}")
+    chk = src("crates/compiler/src/typer/check.rs")
+    def ty_list(fn):
+        b = block_after(chk, r"fn " + fn + r"\(ty: &tast::Ty\) -> bool\s*\{", fn)
+        if not c04_norm(b).startswith("matches!("):
+            raise Exception(f"check.rs: {fn} is not a single matches!")
+        return re.findall(r"tast::Ty::(\w+)", b)
+    ints, floats = ty_list("is_integer_ty"), ty_list("is_float_ty")
+    lit = []
+    for fn, const in (("check_pat_unit", "TUnit"), ("check_pat_bool", "TBool"), ("check_pat_string", "TString")):
+        b = block_after(chk, r"fn " + fn + r"\([^)]*\) -> tast::Pat\s*\{", fn)
+        want = f"self.push_constraint(Constraint::TypeEqual(tast::Ty::{const}, ty.clone()));"
+        if not c04_norm(b).startswith(want) or c04_depth_of(b, "push_constraint") != [0]:
+            raise Exception(f"check.rs: {fn} no longer starts with the unconditional constraint `{const} = scrutinee type`")
+        lit.append((fn, [const]))
+    b = block_after(chk, r"fn check_pat_int\([^)]*\) -> tast::Pat\s*\{", "check_pat_int")
+    if "let target_ty = integer_literal_target(ty).unwrap_or(tast::Ty::TInt32);" not in c04_norm(b) \
+            or c04_depth_of(b, "self.push_constraint(Constraint::TypeEqual(target_ty.clone(), ty.clone()))") != [0]:
+        raise Exception("check.rs: check_pat_int no longer equates the scrutinee's type with `integer_literal_target(ty) or int32` on every path "
+                        "(an unsuffixed integer pattern could then keep a type the match compiler has no case for)")
+    itt = c04_norm(block_after(chk, r"fn integer_literal_target\(expected: &tast::Ty\) -> Option<tast::Ty>\s*\{", "integer_literal_target"))
+    if itt != "if is_integer_ty(expected) { Some(expected.clone()) } else { None }":
+        raise Exception("check.rs: integer_literal_target is no longer `is_integer_ty(expected) ? expected : None`")
+    if "TInt32" not in ints:
+        raise Exception("check.rs: the default type of an unsuffixed integer pattern is not an integer type")
+    lit.append(("check_pat_int", ints))
+    b = block_after(chk, r"fn check_pat_typed_int\([^)]*\) -> tast::Pat\s*\{", "check_pat_typed_int")
+    if c04_depth_of(b, "self.push_constraint(Constraint::TypeEqual(") != [0] or \
+            "self.push_constraint(Constraint::TypeEqual( literal_ty.clone(), expected_ty.clone(), ));" not in c04_norm(b):
+        raise Exception("check.rs: check_pat_typed_int no longer equates the scrutinee's type with the suffix type on every path")
+    cp = block_after(chk, r"fn check_pat\(", "check_pat")
+    cp = cp[cp.index("let out = match pat_node"):] if "let out = match pat_node" in cp else ""
+    typed = re.findall(r"hir::Pat::PU?Int\d+ \{ value \} => \{?\s*self\.check_pat_typed_int\(diagnostics, &value, &tast::Ty::(\w+), ty\)", cp)
+    if len(typed) != 8:
+        raise Exception(f"check.rs: check_pat: expected 8 suffixed integer pattern arms, found {len(typed)}")
+    lit.append(("check_pat_typed_int", typed))
+    sl = lambda xs: "[" + ", ".join(lstr(x) for x in xs) + "]"
+    L = [HEADER, "namespace Goml.Gen.MatchDispatch\n",
+         "/-- the variants of `tast::Ty` (tast.rs), in source order -/", f"def tyVariants : List String := {sl(variants)}\n",
+         lpairs("matchCase", case, "compile_match.rs `compile_rows`, `match &bvar.ty`: the variants whose arm compiles a case, with the function called "
+                "(`bvar.ty` is the type of a pattern that is neither `PVar` nor `PWild`: those columns are removed first)"),
+         lpairs("matchNoCase", nocase, "… the variants whose arm is `panic!` / `unreachable!`: the match compiler relies on the typer never giving a refutable pattern such a type"),
+         "/-- check.rs `is_integer_ty` / `is_float_ty` -/", f"def integerTys : List String := {sl(ints)}", f"def floatTys : List String := {sl(floats)}\n",
+         "/-- check.rs: for each literal-pattern checker, the types it equates the scrutinee's type with — on every path, before anything is solved "
+         "(`check_pat_int`: `integer_literal_target(ty)` = the scrutinee's type when `is_integer_ty`, else `int32`; `check_pat_typed_int`: the suffix types "
+         "passed by `check_pat`) -/",
+         "def literalPatternTys : List (String × List String) := [\n" + ",\n".join(f"  ({lstr(f)}, {sl(ts)})" for f, ts in lit) + "]\n",
+         "end Goml.Gen.MatchDispatch\n"]
+    write_if_changed("MatchDispatch.lean", "\n".join(L))
+
+EXTRACTORS += [c04_match_dispatch]
 
 if __name__ == "__main__":
     main()
